@@ -12,6 +12,10 @@ pub(crate) fn validate_socket_compatibility(
     (SocketType::Pub, SocketType::Sub) | (SocketType::Sub, SocketType::Pub) => true,
     (SocketType::Req, SocketType::Rep) | (SocketType::Rep, SocketType::Req) => true,
     (SocketType::Dealer, SocketType::Router) | (SocketType::Router, SocketType::Dealer) => true,
+    // The remaining valid ZeroMQ pairings, as accepted over ZMTP (validate_v2_compatibility).
+    (SocketType::Req, SocketType::Router) | (SocketType::Router, SocketType::Req) => true,
+    (SocketType::Dealer, SocketType::Rep) | (SocketType::Rep, SocketType::Dealer) => true,
+    (SocketType::Router, SocketType::Router) => true,
     _ => false,
   };
 
